@@ -183,6 +183,7 @@ package nbs
 //@   ensures err == io.EOF ==> n == 0
 //@   ensures err == io.ErrUnexpectedEOF ==> n < len(buf)
 //@   modifies buf[0:len(buf)]
+//@   ghost_set verif_ghost.iRead = verif_ghost.iRead + int64(n)
 
 // readJournalRecord: for every buffer that passed validateJournalRecord (only the length fact is needed)
 // parsing terminates without a panic; after the fix in commit 9379be5 truncated fields are errors.
@@ -725,30 +726,30 @@ package nbs
 
 // processJournalRecords: the journal file is truncated / fsynced only when the caller allowed it
 //@ func processJournalRecords
-//@   property C41
+//@   property C41 C04
 //@   at call Truncate: assert tryTruncate
 //@   at call Sync: assert tryTruncate
 
 // bootstrapJournal: every step that may write is handed the caller's canWrite, and its own writes are guarded by it
 //@ func (*journalWriter).bootstrapJournal
-//@   property C41
+//@   property C41 C04
 //@   at call loadJournalIndex: assert arg2:bool == canWrite
 //@   at call processJournalRecords: assert arg3:bool == canWrite
 //@   at call flushIndexRecord: assert canWrite
 //@ func (*journalWriter).bootstrapJournal$1
-//@   property C41
+//@   property C41 C04
 //@   at call writeIndexLookup: assert canWrite
 
 // loadJournalIndex: read-only mode opens the index O_RDONLY, creates no writer and passes canWrite on
 //@ func (*journalWriter).loadJournalIndex
-//@   property C41
+//@   property C41 C04
 //@   at call OpenFile: assert canWrite || arg1:int == os.O_RDONLY
 //@   at call NewWriterSize: assert canWrite
 //@   at call readJournalIndex: assert arg2:bool == canWrite
 //@   at call corruptIndexRecovery: assert arg1:bool == canWrite
 
 //@ func (*journalWriter).corruptIndexRecovery
-//@   property C41
+//@   property C41 C04
 //@   at call truncateIndex: assert canWrite
 
 // bootstrapJournalWriter: creating the journal, committing a root record into it and truing up the manifest happen
@@ -770,5 +771,76 @@ package nbs
 // readJournalIndex: the on-disk index is rewound only when writing is allowed (the two goroutines it starts are not
 // modelled: their bodies are outside the subset and are treated as unknown calls)
 //@ func (*journalWriter).readJournalIndex
-//@   property C41
+//@   property C41 C04
 //@   at call truncateIndex: assert canWrite
+
+// ---- the journal index is only an accelerator (C04)
+
+// rootHashFromBuffer: for a buffer of exactly root-record size (what peekRootHashAt hands it) it never panics, and it
+// yields a hash only from a length- and CRC-consistent record
+//@ func rootHashFromBuffer
+//@   property C04 C10
+//@   nopanic
+//@   requires len(buf) == rootHashRecordSize()
+//@   ensures  err == nil ==> int(verif_be32(buf)) <= len(buf) && verif_validrec(buf[:verif_be32(buf)])
+//@   modifies nothing
+
+// peekRootHashAt: event marker (which offset was probed, what it held) on top of rootHashFromBuffer
+//@ func peekRootHashAt
+//@   property C04
+//@   nopanic
+//@   requires journal != nil
+//@   modifies nothing
+//@   ghost_set verif_ghost.iPeekOK = (err == nil)
+//@   ghost_set verif_ghost.iPeekHash = root
+//@   ghost_set verif_ghost.iPeekOff = offset
+
+// the validation callback of readJournalIndex: a batch moves the indexed high-water mark (and is forwarded) only if
+// its checksum matches, it starts where the previous batch ended, and the journal holds a valid root record with the
+// recorded hash exactly at the batch end
+//@ func (*journalWriter).readJournalIndex$1$1
+//@   property C04
+//@   ensures  wr.indexed != old(wr.indexed) ==> m.checkSum == batchChecksum && m.batchStart == old(prev) && verif_ghost.iPeekOK && verif_ghost.iPeekHash == m.latestHash && verif_ghost.iPeekOff == m.batchEnd
+//@   ensures  wr.indexed != old(wr.indexed) ==> wr.indexed == m.batchEnd && prev == m.batchEnd
+//@   ensures  result == nil ==> m.checkSum == batchChecksum && m.batchStart == old(prev) && verif_ghost.iPeekOK && verif_ghost.iPeekHash == m.latestHash && verif_ghost.iPeekOff == m.batchEnd
+//@   also_modifies verif_ghost.iPeekOK, verif_ghost.iPeekHash, verif_ghost.iPeekOff
+
+// index reader: every byte consumed is counted (ghost), so that "off is the end of the last complete batch" can be
+// stated as an invariant
+//@ extern (*bufio.Reader).ReadByte as verif_x_bufio_ReadByte
+//@   modifies nothing
+//@   ghost_set verif_ghost.iRead = verif_ghost.iRead + verif_b2i(err == nil)
+
+//@ func readIndexLookup
+//@   property C04 C10
+//@   nopanic
+//@   requires r != nil
+//@   ensures  result1 == nil ==> verif_ghost.iRead == old(verif_ghost.iRead) + 28
+//@   also_modifies verif_ghost.iRead
+
+//@ func readIndexMeta
+//@   property C04 C10
+//@   nopanic
+//@   requires r != nil
+//@   ensures  result1 == nil ==> verif_ghost.iRead == old(verif_ghost.iRead) + 40
+//@   also_modifies verif_ghost.iRead
+
+//@ extern funcvalue:cb/3 as verif_x_index_cb
+//@   modifies nothing
+
+// processIndexRecords: |off| is always the end of the last batch that was read completely AND accepted by the
+// callback (off + bytes of the batch in progress = bytes consumed); the callback gets a fresh batch and a fresh
+// checksum after every accepted batch; an unknown record tag is an error
+//@ func processIndexRecords
+//@   property C04
+//@   nopanic
+//@   requires rd != nil && cb != nil
+// the property-level obligation: a batch is validated by a checksum over EVERY byte of its lookups (address, journal
+// offset, length = 28 bytes). It does not hold: only the 16 address bytes are fed to the CRC (recorded known finding).
+//@   at call Update: assert len(arg2:[]byte) == 28
+// a batch is handed to the callback before |off| moves past it (a rejected batch is never counted as read)
+//@   at call cb: assert off + batchOff + 40 == verif_ghost.iRead - old(verif_ghost.iRead)
+//@   also_modifies verif_ghost.iRead
+//@   loop 1
+//@     invariant off + batchOff == verif_ghost.iRead - old(verif_ghost.iRead)
+//@     invariant len(batch) == 0 ==> batchCrc == 0 && batchOff == 0
